@@ -158,6 +158,32 @@ Example C14_disk_bound_instance :
          [DOp (Put 0 1 tt); Reopen (Some 2); DOp (Put 1 2 tt); DOp (Put 2 3 tt)].
 Proof. repeat constructor. Qed.
 
+(* disk_bound WITHOUT the hypothesis on the Reopens.  `settled true m0 ops` scans the history: the bound is
+   guaranteed at creation, after every put and after clear; get / in / len keep it; a Reopen keeps it iff it held
+   and the new max_size is not smaller (a DiskCache re-opened with a smaller max_size does hold more files than
+   max_size until the next put - that is what the code does, the constructor deletes nothing). *)
+Theorem C14_disk_bound_general : forall wl ls, (wl = true -> 1 <= ls) ->
+  forall D m0 (ops : list (dop D)),
+  let st := final (disk_step wl ls true) (disk_open [] 0 m0) ops in
+  d_max st = snd (settled true m0 ops)
+  /\ (fst (settled true m0 ops) = true -> forall n, d_max st = Some n -> length (d_files st) <= n).
+Proof. exact disk_bound_general. Qed.
+Print Assumptions C14_disk_bound_general.
+(* the scan is not vacuous: here the bound is lost by the Reopen with a smaller max_size and regained by the put *)
+Example C14_disk_bound_general_instance :
+  fst (settled true (Some 3) [DOp (Put 0 1 tt); DOp (Put 1 2 tt); Reopen (Some 1)]) = false
+  /\ fst (settled true (Some 3) [DOp (Put 0 1 tt); DOp (Put 1 2 tt); Reopen (Some 1); DOp (Put 2 3 tt); DOp (Get 0)]) = true.
+Proof. split; reflexivity. Qed.
+
+(* after ANY history the bound holds from the next put on, until the directory is re-opened again *)
+Theorem C14_disk_bound_after_put : forall wl ls, (wl = true -> 1 <= ls) ->
+  forall D m0 (ops1 ops2 : list (dop D)) k v d,
+  (forall o, In o ops2 -> match o with Reopen _ => False | DOp _ => True end) ->
+  let st := final (disk_step wl ls true) (disk_open [] 0 m0) (ops1 ++ DOp (Put k v d) :: ops2) in
+  forall n, d_max st = Some n -> length (d_files st) <= n.
+Proof. exact disk_bound_after_put. Qed.
+Print Assumptions C14_disk_bound_after_put.
+
 (* ---------------------------------------------------------------- the code BEFORE the fixes (models *_v0 /
    guard=false / fixed=false): the full no-raise statements were refuted by these witnesses, which were replayed
    on the real code, repaired by the `fix:` commits, and are replayed on every run by the harness *)
